@@ -85,7 +85,7 @@ func c15Gen(g *Gen) {
 			lines = append(lines, fmt.Sprintf("cont a %s %s cur=$%s call=- cancel=0 sess=- out=- in=%s", s.id, s.method, s.cur, Pick(r, []string{"i64", "i32"})))
 		}
 		newStream := func() {
-			s := &c15Stream{id: Pick(r, ids), method: Pick(r, methods)}
+			s := &c15Stream{id: Pick(r, ids[:1+r.Intn(len(ids))]), method: Pick(r, methods)}
 			k := len(streams)
 			s.cur, s.call = fmt.Sprintf("c%d", k), fmt.Sprintf("k%d", k)
 			lines = append(lines, fmt.Sprintf("init %s %s %s limit=%d sess=- cur=%s call=%s", Pick(r, []string{"a", "b", "c"}), s.id, s.method, r.Range(30, 60), s.cur, s.call))
@@ -104,7 +104,40 @@ func c15Gen(g *Gen) {
 			}
 			return true
 		}
-		switch r.Intn(5) {
+		// a refused pairing: stream x's cursor with stream y's (genuine, same caller) call token. It must
+		// leave nothing behind on the instance that refused it.
+		mismatch := func(x, y *c15Stream, inst string) {
+			if x == y || x.id != y.id || !safe(x.curAge) || !safe(x.callAge) || !safe(y.callAge) {
+				return
+			}
+			lines = append(lines, fmt.Sprintf("cont %s %s %s cur=$%s call=$%s cancel=0 sess=- out=- in=%s", inst, x.id, x.method, x.cur, y.call, Pick(r, []string{"i64", "i32"})))
+		}
+		switch r.Intn(6) {
+		case 5:
+			// A's cursor is paired with B's younger call token on an instance that holds no entry for A
+			// (refused); A's own continuations there must then still see A's call — its stream id, its
+			// declared input schema, and its expiry
+			newStream()
+			A := streams[0]
+			A.id = ids[0]
+			lines[len(lines)-1] = fmt.Sprintf("init a %s %s limit=50 sess=- cur=%s call=%s", A.id, A.method, A.cur, A.call)
+			advance(T - r.Range(5, 8))
+			newStream()
+			B := streams[1]
+			B.id = A.id
+			B.method = Pick(r, methods)
+			lines[len(lines)-1] = fmt.Sprintf("init %s %s %s limit=50 sess=- cur=%s call=%s", Pick(r, []string{"a", "b"}), B.id, B.method, B.cur, B.call)
+			turn(A, "a") // a fresh cursor for A
+			inst := Pick(r, []string{"c", "c", "b"})
+			mismatch(A, B, inst)
+			turn(A, inst)
+			mismatch(B, A, inst)
+			turn(B, inst)
+			advance(r.Range(8, 11)) // A's call token is past its TTL now, B's is young
+			turn(A, inst)
+			mismatch(A, B, inst)
+			turn(A, inst)
+			turn(B, inst)
 		case 0:
 			// the scenario of the F15 defect, on every cache size: warm a cold instance just before the
 			// call token expires, let the token expire, come back with a fresh cursor
@@ -150,6 +183,8 @@ func c15Gen(g *Gen) {
 				switch x := r.Intn(100); {
 				case (x < 8 || streams[len(streams)-1].refused >= 2) && len(streams) < 4:
 					newStream()
+				case x < 12 && len(streams) >= 2:
+					mismatch(Pick(r, streams), Pick(r, streams), Pick(r, []string{"a", "b", "c"}))
 				case x < 60:
 					turn(Pick(r, streams), Pick(r, []string{"a", "b", "c"}))
 				case x < 68:
